@@ -28,6 +28,10 @@ def run_property(prop: str, tier: str, prog: Program | None = None) -> Result:
         mod.run(prog, res, tier)
     except AnalysisError as e:
         res.error(str(e))
+    except Exception as e:   # a crash is an analysis failure, never a verdict
+        tb = traceback.extract_tb(e.__traceback__)[-1]
+        res.error(f"checker crashed: {type(e).__name__}: {e} at "
+                  f"{tb.filename.split('/')[-1]}:{tb.lineno}")
     return res
 
 
